@@ -236,7 +236,7 @@ def harnesses(tier):
 ORACLES = [
     {'name': 'ill-typed / failing expressions in every expression position (match, let, field, tag, transform, variable, view filter) '
              'on the real loader, matcher, CSV parser and view classifier; outcome compared with the same file without the failing rule',
-     'script': 'C08.py', 'bound': '40 failing expression texts x 7 positions x 3 transactions, plus rule-list contexts of length <= 3'},
+     'script': 'C08.py', 'bound': '42 failing expression texts x 8 positions x 3 transactions, rule-list contexts of length <= 3, 15 view expressions misusing the aggregates, 6 non-compiling legacy CSV patterns x 3 positions'},
 ]
 TRUSTED_BASE = [
     'pyvc symbolic executor', 'z3 5.1.0 / cvc5 1.0.3',
